@@ -61,6 +61,10 @@ def enumerated_trees(ctx):
         out.append("(arri %s)" % " ".join("(u8 1)" for i in range(n)))
     for x in lv[::5]:
         out += wrap(x)[:4]
+    # partially filled definite containers (capacity > size), also nested and still empty
+    for cap in (1, 2, 4, 24, 25, 300):
+        out += ["(arrd %d)" % cap, "(mapd %d)" % cap, "(arrd %d (u8 1))" % (cap + 1), "(mapd %d (u8 1) (ts 61))" % (cap + 1),
+                "(arri (arrd %d (u8 1) (u8 2)) (u8 3))" % (cap + 2), "(tag 9 (mapd %d (u8 1) (arrd %d)))" % (cap + 1, cap)]
     return out
 
 def random_tree(rng, depth):
@@ -84,6 +88,9 @@ def random_tree(rng, depth):
             return "(f32 %x)" % rng.choice([rng.randrange(2 ** 32), 0x7F800001, 0x7FC00000, 0])
         return "(f64 %x)" % rng.choice([rng.randrange(2 ** 64), 0x7FF0000000000001, 0x7FF8000000000000, 0])
     k = rng.randrange(5)
+    if rng.random() < 0.08:
+        n = rng.randrange(3)
+        return "(arrd %d%s)" % (n + rng.randrange(1, 4), "".join(" " + random_tree(rng, depth - 1) for _ in range(n)))
     if k == 0:
         return "(tag %d %s)" % (rng.choice([0, 23, 24, 255, 256, 65535, 65536, 2 ** 32, 2 ** 64 - 1, rng.randrange(2 ** 64)]), random_tree(rng, depth - 1))
     n = rng.randrange(4)
